@@ -57,7 +57,7 @@ def layering_defect(tm, want, groups):
     return None
 
 
-FLAT = ["t1", "t10", "t2"]
+FLAT = ["t1", "t10", "T1"]   # a prefix sibling and a name that differs from another one by letter case only
 
 
 def digraphs(n):
@@ -101,6 +101,47 @@ def c10_task(ts):
         other = [l for l in text.splitlines() if l and not re.match(r'^(\d+ \[label=".*"\];|\d+ -> \d+;|digraph DAG \{|// .*|node \[.*\];|edge \[.*\];|\})$', l)]
         if other:
             v.append(("render-extra-lines", "unexpected lines %s" % other[:3]))
+        return v
+    finally:
+        s.cleanup()
+
+
+def c10_symlink_task(_):
+    """The relation is a matter of the declared path strings, whatever is on disk: a `uses` entry that
+    passes through a symbolic link into another target's directory, and a target declared through a
+    symbolic link, are related to what their *text* says."""
+    ts = [{"path": "app", "uses": ["vendor/core/api.txt"]}, {"path": "libs/core"}, {"path": "pkg/ui"},
+          {"path": "web", "uses": ["pkg/ui/index.txt"]}, {"path": "tools", "uses": ["./libs/../tools/x"]}]
+    tm = {t["path"]: t for t in ts}
+    s = sc.Scratch("c10sym")
+    try:
+        os.makedirs(os.path.join(s.dir, "r"))
+        base = os.path.join(s.dir, "r")
+        for d_ in ("app", "libs/core", "packages/ui", "web", "tools", "vendor"):
+            os.makedirs(os.path.join(base, d_))
+            with open(os.path.join(base, d_, "f.txt"), "w") as f:
+                f.write("x\n")
+        for f_ in ("libs/core/api.txt", "packages/ui/index.txt"):
+            with open(os.path.join(base, f_), "w") as f:
+                f.write("x\n")
+        os.symlink("../libs/core", os.path.join(base, "vendor/core"))
+        os.symlink("packages", os.path.join(base, "pkg"))
+        with open(os.path.join(base, "Monorail.json"), "w") as f:
+            json.dump({"targets": ts}, f)
+        dot = os.path.join(s.dir, "g.dot")
+        import subprocess
+        res = subprocess.run([common.MONORAIL, "target", "render", "-f", dot], cwd=base, env=s.env(), capture_output=True)
+        if res.returncode != 0:
+            return [("render-failed", "target render failed with symbolic links in the tree: %s" % res.stderr[:200])]
+        text = open(dot).read()
+        nodes = dict((int(a), b) for a, b in re.findall(r'^(\d+) \[label="(.*)"\];$', text, re.M))
+        edges = sorted((nodes.get(int(a), "?"), nodes.get(int(b), "?")) for a, b in re.findall(r"^(\d+) -> (\d+);$", text, re.M))
+        want = sorted((t, u) for t in tm for u in tm if dep(tm, t, u))
+        v = []
+        if sorted(nodes.values()) != sorted(tm):
+            v.append(("render-nodes-wrong", "nodes %s, targets %s" % (sorted(nodes.values()), sorted(tm))))
+        if edges != want:
+            v.append(("render-edges-wrong", "with symbolic links on disk (vendor/core -> ../libs/core, pkg -> packages): edges %s, the declared paths give %s" % (edges, want)))
         return v
     finally:
         s.cleanup()
@@ -356,6 +397,32 @@ def acyc_ckpt_cases(tier):
     return out
 
 
+def big_cycle_task(n):
+    """n flat targets t0000.. (n around the powers of two and batch sizes a parallel or chunked edge
+    builder might use), one 2-cycle between the last two targets, command files only for those two."""
+    ts = [{"path": "t%04d" % i} for i in range(n)]
+    ts[n - 2]["uses"] = [ts[n - 1]["path"]]
+    ts[n - 1]["uses"] = [ts[n - 2]["path"]]
+    s = sc.Scratch("gbig")
+    try:
+        r = sc.Repo(s, "r", ts, commands={ts[n - 2]["path"]: {"build": "x"}, ts[n - 1]["path"]: {"build": "x"}}, init_git=False)
+        v = []
+        judged = 0
+        for name, argv in (("analyze --target-groups", ["analyze", "--target-groups"]), ("target show -g", ["target", "show", "-g"]),
+                           ("run -c build", ["run", "-c", "build"]), ("run -c build -t last --deps", ["run", "-c", "build", "-t", ts[n - 1]["path"], "--deps"])):
+            r.clear_traces()
+            res = r.mr(*argv, env=r.trace_env(), timeout=300)
+            judged += 1
+            e = res.err_json() or {}
+            if res.code == 0 or e.get("type") != "graph":
+                v.append(("cycle-accepted-by-cli", "%d targets, cycle between the last two: %s exit %s, stderr %s" % (n, name, res.code, res.err[:150])))
+            if r.traces():
+                v.append(("executed-despite-cycle", "%d targets: %s started %d executables" % (n, name, len(r.traces()))))
+        return {"judged": judged, "v": [(sig, d, {"cli_big_cycle": n}) for sig, d in v]}
+    finally:
+        s.cleanup()
+
+
 def cyc_ckpt_cases(tier):
     out = []
     for n in (2, 3):
@@ -440,6 +507,13 @@ def c01_task(ts):
                 g = {t["path"] for t in (c.get("targets") or []) if t["reason"] != "ignores"}
                 if not (a <= g <= b):
                     v.append(("cli-breakdown-wrong", "change %s: %s, required %s allowed %s" % (c["path"], sorted(g), sorted(a), sorted(b))))
+            # the summary does not depend on the output flags nor on how much the invocation logs about itself
+            for flags, argv in ((["-vvv"], ["analyze", "--all"]), ([], ["analyze"]), (["-vvv"], ["analyze"]), (["-v"], ["analyze", "--target-groups"])):
+                r.global_flags = flags
+                d2 = r.mr(*argv).json()
+                r.global_flags = None
+                if d2 is None or d2.get("targets") != d["targets"]:
+                    v.append(("cli-summary-depends-on-flags", "%s %s reports targets %s, analyze --all reports %s" % (" ".join(flags), " ".join(argv), d2 and d2.get("targets"), d["targets"])))
         return {"judged": 1, "v": [(sig, dd, {"cli_config": {"targets": ts}}) for sig, dd in v]}
     finally:
         s.cleanup()
@@ -468,6 +542,9 @@ def c01_cases(tier):
 
 def _wrap(fn_name, arg):
     try:
+        if fn_name == "c10" and arg == "@symlinks":
+            v = c10_symlink_task(0)
+            return {"judged": 1, "v": [(sig, d, {"cli_c10_symlinks": 1}) for sig, d in v]}
         if fn_name == "c10":
             v = c10_task(arg)
             return {"judged": 1, "v": [(sig, d, {"cli_config": {"targets": arg}}) for sig, d in v]}
@@ -475,6 +552,8 @@ def _wrap(fn_name, arg):
             return graph_task(arg)
         if fn_name == "cyc":
             return cyc_ckpt_task(arg)
+        if fn_name == "big":
+            return big_cycle_task(arg)
         if fn_name == "acyc":
             return acyc_ckpt_task(arg)
         if fn_name == "sym":
@@ -503,6 +582,10 @@ def _wsy(a):
     return _wrap("sym", a)
 
 
+def _wbig(a):
+    return _wrap("big", a)
+
+
 def _wac(a):
     return _wrap("acyc", a)
 
@@ -514,11 +597,12 @@ def _w01(a):
 def run_slice(prop, tier):
     """Returns (cases judged, violations [{'sig','detail','rank','case'}])."""
     if prop == "C10":
-        res = common.pmap(_w10, c10_cases(tier), chunksize=4)
+        res = common.pmap(_w10, c10_cases(tier) + ["@symlinks"], chunksize=4)
     elif prop in ("C03", "C09"):
         res = common.pmap(_wg, graph_cases(prop, tier), chunksize=2)
         if prop == "C09":
             res += common.pmap(_wcy, cyc_ckpt_cases(tier), chunksize=1)
+            res += common.pmap(_wbig, [51, 65, 257, 1030] if tier == "quick" else [51, 65, 101, 257, 513, 1030, 2051, 4100], chunksize=1)
         else:
             res += common.pmap(_wac, acyc_ckpt_cases(tier), chunksize=1)
             res += common.pmap(_wsy, ["declared", "reversed"], chunksize=1)
